@@ -96,7 +96,7 @@ func TestVerifC13Preview(t *testing.T) {
 		case <-time.After(20 * time.Second):
 			rec["hung"] = true
 		}
-		if selftest == "preview" && x.I%40 == 3 {
+		if strings.Contains(selftest, "preview") && x.I%40 == 3 {
 			rec["panic"] = true
 			rec["site"] = "selftest"
 		}
